@@ -143,16 +143,16 @@ Qed.
 (** C16 (zsh), generate: for EVERY command tree without explicit bin names on subcommands, every assignment of texts and
     every non-empty bin name, [clap_complete::aot::generate(Zsh, ..)] writes a script: [build] does not run out of fuel,
     no [expect] of the generator fires, the recursion through the lookup by bin name ends *)
-Theorem generate_zsh_total c d bin :
-  binless c = true -> bin <> [] -> exists s, generate_zsh c d bin = Some s.
+Theorem generate_zsh_total bl c d bin :
+  binless c = true -> bin <> [] -> exists s, generate_zsh bl c d bin = Some s.
 Proof.
   intros Hb Hne. unfold generate_zsh.
   destruct (build (set_bin_name c bin)) as [b|] eqn:E; [|exfalso; exact (build_total _ E)].
-  destruct (build_linked c bin b Hb Hne E) as [H1 H2]. exact (zsh_total b _ bin H1 H2).
+  destruct (build_linked c bin b Hb Hne E) as [H1 H2]. exact (zsh_total bl b _ bin H1 H2).
 Qed.
 
-Theorem generate_zsh_is_built c d bin b :
-  build (set_bin_name c bin) = Some b -> generate_zsh c d bin = zsh_script b (dbuild (set_bin_name c bin) d).
+Theorem generate_zsh_is_built bl c d bin b :
+  build (set_bin_name c bin) = Some b -> generate_zsh bl c d bin = zsh_script bl b (dbuild (set_bin_name c bin) d).
 Proof. intros H. unfold generate_zsh. rewrite H. reflexivity. Qed.
 
 Example generate_zsh_total_example :
